@@ -64,6 +64,12 @@ func Verify(
 		reader := packet.NewReader(bytes.NewBuffer(decodedSignature))
 		pkt, err := reader.Next()
 		if err != nil {
+			// A signature that holds no packet at all is invalid, not the end of anything: io.EOF would read as a clean end
+			// of the content further up
+			if err == io.EOF {
+				return nil, nil, config.ErrSignatureInvalid
+			}
+
 			return nil, nil, err
 		}
 
@@ -172,6 +178,12 @@ func VerifyString(
 		reader := packet.NewReader(bytes.NewBuffer(decodedSignature))
 		pkt, err := reader.Next()
 		if err != nil {
+			// A signature that holds no packet at all is invalid, not the end of anything: io.EOF would read as a clean end
+			// of the content further up
+			if err == io.EOF {
+				return config.ErrSignatureInvalid
+			}
+
 			return err
 		}
 
